@@ -428,7 +428,7 @@ def rule_derivers_kept(ctx: Ctx) -> None:
             cfg = None
             for c in [c for c in ast.walk(fn.node) if isinstance(c, ast.Call) and dotted(c.func) in ("Sweep", "type(self)", "self.__class__")]:
                 drops = [k for k in c.keywords if k.arg == "derivers" and isinstance(k.value, ast.Constant) and k.value.value is None]
-                from_self = any(norm(a) == "self.items" for a in [*c.args, *[k.value for k in c.keywords]])
+                from_self = any("self.items" in norm(Defs(fn).resolve(a)) for a in [*c.args, *[k.value for k in c.keywords]])  # the receiver's items, whole or narrowed
                 if not drops or not from_self:
                     continue
                 n += 1
@@ -531,8 +531,59 @@ def rule_closures_and_names(ctx: Ctx) -> None:
                 "empty-items guard not recognised", key=f"empty-first {mname}")
 
 
+def rule_projection_keeps_only_its_items(ctx: Ctx) -> None:
+    """A sweep's `items` hold its dimensions and nothing else: product() merges the operands' items wholesale, so an entry that
+    is no dimension of an operand (left behind by a projection) replaces the visible dimension of the same name of another operand.
+    filtered_sweep narrows `dims` to the requested keys, so the `items` it hands to the new Sweep are narrowed by the same keys."""
+    from ..flow import dependence_text
+
+    fs = ctx.prog.cls(f"{MOD}.Sweep").methods["filtered_sweep"]
+    keyp = [p_ for p_ in fs.param_names() if p_ != "self"][0]
+    d = Defs(fs)
+    n = 0
+    for r in [r for r in walk_no_nested(fs.node) if isinstance(r, ast.Return) and isinstance(r.value, ast.Call) and dotted(r.value.func) == "Sweep"]:
+        c = r.value
+        items = c.args[0] if c.args else next((k.value for k in c.keywords if k.arg == "items"), None)
+        dims = c.args[1] if len(c.args) > 1 else next((k.value for k in c.keywords if k.arg == "dims"), None)
+        if items is None or dims is None:
+            continue  # Sweep({}) / a sweep without dims
+        n += 1
+        it_txt, dm_txt = dependence_text(fs.node, items), dependence_text(fs.node, dims)
+        narrowed_dims = re.search(rf"\bin {re.escape(keyp)}\b", dm_txt) is not None or re.search(rf"\b{re.escape(keyp)}\b", norm(d.resolve(dims))) is not None
+        narrowed_items = re.search(rf"\b{re.escape(keyp)}\b", it_txt) is not None
+        whole = norm(d.resolve(items)) in ("self.items", "self.items.copy()", "dict(self.items)")
+        ctx.tri("7-closures", fs, c, narrowed_items or not narrowed_dims, whole and narrowed_dims, "the projection hands on only the items it still enumerates",
+                f"`{norm(c)[:60]}` narrows dims to `{keyp}` but hands on ALL items: the dropped entries stay in `.items`, and product() (items.update(other.items)) lets them replace the dimension of the same name "
+                "of the other operand - Sweep({'b': [7, 8, 9]}).product(Sweep({'a': [1, 2], 'b': [3, 4]}).filtered_sweep(('a',))) enumerates b in [3, 4]",
+                "how the projection's items relate to the requested keys was not recognised", key="projection-items-narrowed")
+    ctx.floor("7-closures.projection", n, 2)
+
+
+def rule_counts_every_dependency(ctx: Ctx) -> None:
+    """count_sweep reports EVERY dependency of the output: the loop over func_dependencies has no filter and no `continue` -
+    a dependency without root arguments is reported with the empty tuple as its only key."""
+    cs = ctx.prog.func(f"{MOD}.count_sweep")
+    d = Defs(cs)
+    loops = [lp for lp in walk_no_nested(cs.node) if isinstance(lp, ast.For) and "func_dependencies(" in norm(d.resolve(lp.iter))]
+    if not loops:
+        ctx.add("5-shape", cs, cs.node, None, "UNDECIDED: the loop over the dependencies was not found in count_sweep", key="counts-every-dependency")
+        return
+    lp = loops[0]
+    skips = [x for b_ in lp.body for x in ast.walk(b_) if isinstance(x, ast.Continue) and not any(isinstance(q, (ast.For, ast.While)) and any(y is x for y in ast.walk(q)) for b2 in lp.body for q in ast.walk(b2) if q is not lp)]
+    filtered = isinstance(d.resolve(lp.iter), (ast.ListComp, ast.GeneratorExp, ast.SetComp)) and any(g.ifs for g in d.resolve(lp.iter).generators)  # type: ignore[union-attr]
+    stores = [x for b_ in lp.body for x in ast.walk(b_) if isinstance(x, ast.Assign) and any(isinstance(t, ast.Subscript) and norm(t.slice) == norm(lp.target) for t in x.targets)]
+    # a `continue` that follows a store of this dependency's entry skips nothing of the report
+    cfg = ctx.cfg(cs)
+    store_nodes = {cfg.node_containing(x) for x in stores} - {None}
+    early = [x for x in skips if not any(cfg.dominates(sn, cfg.node_containing(x)) for sn in store_nodes if cfg.node_containing(x) is not None)]
+    bad = early or ([lp.iter] if filtered else [])
+    ctx.tri("5-shape", cs, bad[0] if bad else lp, bool(stores) and not bad, bool(bad), "every dependency gets an entry in the report",
+            "count_sweep skips some dependencies (a `continue` / filter in the loop over func_dependencies): the report has no entry for them, although the property promises one per dependency "
+            "(a dependency without root arguments is counted under the empty tuple)", "the store of a dependency's entry was not recognised", key="counts-every-dependency")
+
+
 def check(ctx: Ctx) -> None:
-    for rule in (rule_all_operands, rule_accumulators_accumulate, rule_names_and_values_aligned, rule_reads_dims, rule_len_mirror, rule_arms, rule_shape, rule_pure, rule_derivers_kept, rule_closures_and_names):
+    for rule in (rule_projection_keeps_only_its_items, rule_counts_every_dependency, rule_all_operands, rule_accumulators_accumulate, rule_names_and_values_aligned, rule_reads_dims, rule_len_mirror, rule_arms, rule_shape, rule_pure, rule_derivers_kept, rule_closures_and_names):
         ctx.run(rule)
 
 
@@ -561,6 +612,8 @@ MUTANTS = [
            "        if isinstance(other, MultiSweep):\n            return other.combine(self)\n        return MultiSweep(self, other)\n\n    def combine(self, other: Sweep) -> MultiSweep:\n        \"\"\"Add another sweep to this MultiSweep.\"\"\"\n        return self + other", ("C17.5-shape",), why="seeded C17/3"),
     Mutant("product-writes-into-receiver", F, "        items = self.items.copy()\n", "        items = self.items\n", ("C17.6-pure",), why="round-2 seed C17/4"),
     Mutant("list-memoised-on-self", F, "        return self.generate()\n\n    def list(self) -> list[dict[str, Any]]:\n        \"\"\"Return the sweep as a list.\"\"\"\n        return list(self.generate())\n", "        return self.generate()\n\n    def list(self) -> list[dict[str, Any]]:\n        \"\"\"Return the sweep as a list.\"\"\"\n        if getattr(self, \"_combinations\", None) is None:\n            self._combinations = list(self.generate())\n        return self._combinations.copy()\n", ("C17.6-pure",), why="round-2 seed C17/6"),
+    Mutant("projection-original-F63", F, "            {k: v for k, v in self.items.items() if k in keys},  # items that are no dimension anymore are not carried along\n", "            self.items,\n", ("C17.7-closures",), why="original F63"),
+    Mutant("count-skips-rootless", F, "        assert isinstance(arg_combination, tuple)\n", "        assert isinstance(arg_combination, tuple)\n        if not arg_combination:\n            continue\n", ("C17.5-shape",), why="round-8 seed C17/24"),
     Mutant("twin-loop-var-renamed", F, "exclude=_combined_exclude(self.exclude, *(other.exclude for other in others)),", "exclude=_combined_exclude(self.exclude, *(o.exclude for o in others)),", twin=True),
     Mutant("twin-len-comment", F, "            return 0  # `generate` yields nothing without items\n", "            return 0\n", twin=True),
 ]
